@@ -376,7 +376,8 @@ def native_world():
             self.salt = salt
 
         def of(self, content):
-            return float((len(str(content)) * 7 + self.salt) % 5)
+            # (values include a tiny positive one and a denormal: "covered" means exactly 0.0, not "close to 0")
+            return [0.0, 1e-12, 2.0, 5e-324, 0.5][(len(str(content)) * 7 + self.salt) % 5]
 
         def compute_fitness(self, individual):
             return self.of(_content(individual))
